@@ -310,6 +310,24 @@ func (ex *explorer) check(extra *smt.Term) (smt.Result, map[*smt.Term]uint64) {
 	ex.solver.SyncTo(ex.pc)
 	start := time.Now()
 	res, m := ex.solver.Check(extra, true)
+	if res == smt.Unsat && ex.shared.cfg.KeepScripts > 0 {
+		// keep a spread of the verdict-bearing (unsat) queries as stand-alone scripts: the first
+		// few and then one in 500, for the cross-check against the other solvers
+		sh := ex.shared
+		sh.mu.Lock()
+		sh.scriptSeen++
+		n := sh.scriptSeen
+		keep := len(sh.Scripts) < sh.cfg.KeepScripts && (n <= 3 || n%500 == 0)
+		sh.mu.Unlock()
+		if keep {
+			txt := smt.Script(ex.pc, extra)
+			sh.mu.Lock()
+			if len(sh.Scripts) < sh.cfg.KeepScripts {
+				sh.Scripts = append(sh.Scripts, txt)
+			}
+			sh.mu.Unlock()
+		}
+	}
 	if slowLog != "" {
 		if d := time.Since(start); d > 100*time.Millisecond {
 			f, err := os.OpenFile(slowLog, os.O_APPEND|os.O_CREATE|os.O_WRONLY, 0o644)
